@@ -237,7 +237,7 @@ def run(ctx):
         m = meta[cid]
         ctx.violation(vs[0][0], {"points": m["points"], "cfg": m["cfg"]}, {"verdict": vs[0], "error": m.get("error"), "pass": m["which"]},
                       match="%s:%s:%s" % (vs[0][0], m["cfg"]["detector"], m["cfg"]["mode"]))
-    growth.pipeline_variants(ctx)
+    growth.safe(ctx, growth.pipeline_variants)
     sm = max(cases, key=lambda c: len(c["events"][-1]["out"]) if c["events"][-1]["stage"] == "map" and c["n"] < 80 else -1)
     ctx.sample({"binding": "T", "cfg": meta[sm["id"]]["cfg"], "n": sm["n"], "events": sm["events"]})
 
